@@ -48,7 +48,7 @@ FreshChain(a, s, w, n, env) ==
      IN IF need = 0 \/ env.raise THEN <<s1>> \o poolSteps \o <<final>>
         ELSE
         LET sp == AfterPool(takeN)
-            sm == [sp EXCEPT !.study[s].meta = Merge(@, env.md)]          \* update_metadata commits even when empty
+            sm == [sp EXCEPT !.study[s].meta = Merge(@, EffMd(@, env.md))]          \* update_metadata commits even when empty
             base == MaxTrialId(sm, s)
             kk == Len(env.ps)
             \* final without the operation being done: trials base+1..base+j exist as in final
@@ -127,7 +127,7 @@ PartialSuggest(a, c, g) ==
   IN /\ g.owner = a.owner
      /\ \A s2 \in Studies \ {s} : g.study[s2] = a.study[s2] /\ g.trial[s2] = a.trial[s2] /\ g.ops[s2] = a.ops[s2] /\ g.es[s2] = a.es[s2]
      /\ g.study[s] # Absent /\ g.study[s].state = a.study[s].state /\ g.study[s].cfg = a.study[s].cfg
-     /\ \A x \in Cells : g.study[s].meta[x] \in {a.study[s].meta[x], Merge(a.study[s].meta, env.md)[x]}
+     /\ \A x \in Cells : g.study[s].meta[x] \in {a.study[s].meta[x], Merge(a.study[s].meta, EffMd(a.study[s].meta, env.md))[x]}
      /\ g.es[s] = a.es[s]
      /\ old \subseteq IdsOf(g, s)
      /\ \A t \in turned : a.trial[s][t].state = "REQUESTED" /\ g.trial[s][t] = [a.trial[s][t] EXCEPT !.state = "ACTIVE", !.client = w]
